@@ -43,7 +43,7 @@ func Check(c *Case) (res kit.Result) {
 	for _, t := range Types {
 		okT = okT || t == c.T
 	}
-	if !okT || c.C < 1 || c.C > 8 || c.K < 0 || c.K > 64 || c.L < 0 || c.L > c.K || c.G < 1 || c.G > 64 || c.M < 1 || c.M > 200 ||
+	if !okT || c.C < 1 || c.C > 8 || c.K < 0 || c.K > 1<<21 || (c.K > 64 && c.G*c.M > 64) || c.L < 0 || c.L > c.K || c.G < 1 || c.G > 64 || c.M < 1 || c.M > 200 ||
 		c.Procs < 1 || c.Procs > 64 || len(c.Yields) != c.G || len(c.ByValue) != c.G || c.Repeat < 1 || c.Repeat > 50 {
 		return
 	}
@@ -82,6 +82,13 @@ func runOnce(c *Case) (string, int64) {
 	pool := kit.NewAnyPool(c.T, al)
 	want := kit.Hdr{Len: C * L, Cap: C * K, Length: L, Capacity: K, Channels: C, BitDepth: kit.Info(c.T).Bits}
 	errs := make([]string, c.G) // one slot per goroutine: no sharing between workers
+	one := kit.AllocAny(c.T, signal.Allocator{Channels: 1, Length: 1, Capacity: 1})
+	zero := one.Get(0)
+	stampVal := func(g, cycle int) kit.Val { // the stamp as the element type stores it
+		b := kit.AllocAny(c.T, signal.Allocator{Channels: 1, Length: 1, Capacity: 1})
+		b.Set(0, kit.IV(stampOf(g, cycle)))
+		return b.Get(0)
+	}
 	var recycled atomic.Int64
 	start := make(chan struct{})
 	stop := make(chan struct{})
@@ -133,12 +140,12 @@ func runOnce(c *Case) (string, int64) {
 				full := b.Slice(0, K)
 				n := full.Len()
 				for i := 0; i < n; i++ {
-					if v := full.Get(i); v.String() != "0" {
+					if v := full.Get(i); !kit.SameVal(v, zero) {
 						errs[g] = fmt.Sprintf("goroutine %d cycle %d: obtained buffer is not fresh: sample %d reads %s", g, cycle, i, v)
 						return
 					}
 				}
-				st := kit.IV(stampOf(g, cycle))
+				st := stampVal(g, cycle)
 				for i := 0; i < n; i++ {
 					full.Set(i, st)
 				}
@@ -146,7 +153,7 @@ func runOnce(c *Case) (string, int64) {
 					runtime.Gosched()
 				}
 				for i := 0; i < n; i++ {
-					if v := full.Get(i); v.String() != st.String() {
+					if v := full.Get(i); !kit.SameVal(v, st) {
 						errs[g] = fmt.Sprintf("goroutine %d cycle %d: wrote stamp %s over the whole capacity, sample %d now reads %s - another holder wrote to this storage", g, cycle, st, i, v)
 						return
 					}
@@ -195,6 +202,13 @@ func Gen(t *rapid.T) *Case {
 	c.L = rapid.SampledFrom([]int{0, c.K, c.K / 2}).Draw(t, "l")
 	c.G = rapid.SampledFrom([]int{2, 3, 4, 8, 16, 32, 64}).Draw(t, "g")
 	c.M = rapid.IntRange(1, 30).Draw(t, "m")
+	if rapid.IntRange(0, 39).Draw(t, "huge") == 0 { // megabytes per buffer: size-gated paths of Put/clear
+		c.T = rapid.SampledFrom([]string{"float64", "uint64"}).Draw(t, "hugeType")
+		c.K = rapid.IntRange(270000, 420000).Draw(t, "kHuge") / c.C
+		c.L = 0
+		c.G = rapid.IntRange(2, 6).Draw(t, "gHuge")
+		c.M = rapid.IntRange(1, 18/c.G).Draw(t, "mHuge")
+	}
 	c.Procs = rapid.SampledFrom([]int{1, 2, 4, 8, 16}).Draw(t, "procs")
 	c.GC = rapid.IntRange(0, 3).Draw(t, "gc") == 0
 	c.Repeat = 1
